@@ -356,6 +356,34 @@ let run_reenc (proto : string) (pd : string) (su : string) (hex : string) : stri
      | _ -> "NA")
   | _ -> "NA"
 
+(* C12: the instruction list of Encode's output: per instruction  asmhex:iproto:delta:need
+   delta / need describe sd_step: need = objects required below (or "mark"), delta = net effect *)
+let int_of_z (z : z) : int = match z with Z0 -> 0 | Zpos p -> int_of_pos p | Zneg p -> - (int_of_pos p)
+let insn_sig (i : insn) : string =
+  let rec falses k = if k = 0 then [] else false :: falses (k - 1) in
+  let rec need k = if k > 4 then None else
+      (match sd_step i (falses k) with Some s -> Some (k, List.length s - k) | None -> need (k + 1)) in
+  match i with
+  | IStop -> "1:-1"
+  | _ ->
+    match need 0 with
+    | Some (k, d) -> Printf.sprintf "%d:%d" k d
+    | None ->
+      (match sd_step i (false :: false :: true :: false :: []) with
+       | Some s -> Printf.sprintf "mark:%d" (List.length s)   (* [obj; obj; mark; obj] -> ? *)
+       | None -> "never")
+let run_prog (proto : string) (su : string) (toks : string list) : string =
+  let (v, _) = parse_rval toks in
+  let cfg = { e_proto = z_of_dec proto; e_strict = (su = "1"); e_isprint = is_print_hi; e_fmtg = fmt_g } in
+  let (_, r) = run_w (encode cfg v) None in
+  match r with
+  | EOk ->
+    let pr = program cfg v in
+    "ok " ^ String.concat " " (List.map (fun i ->
+        Printf.sprintf "%s:%d:%s" (hex_of_blist (asm i)) (int_of_z (iproto i)) (insn_sig i)) pr)
+    ^ (if sd_run pr [] then " #wf" else " #illformed")
+  | _ -> "NA"
+
 let parse_one (toks : string list) : val0 * string list =
   parse_val toks
 
@@ -512,6 +540,7 @@ let handle (line : string) : string =
      | ((r, _), _) -> "decode " ^ show_res (fun _ -> "") r)
   | "enc" :: proto :: su :: failat :: rest -> run_enc proto su failat rest
   | "norm" :: proto :: su :: rest -> run_norm proto su rest
+  | "prog" :: proto :: su :: rest -> run_prog proto su rest
   | "reenc" :: proto :: pd :: su :: rest -> run_reenc proto pd su (match rest with [h] -> h | _ -> "")
   | "dict" :: rest -> run_dict rest
   | "lookup" :: n :: rest -> run_lookup n rest
